@@ -6,7 +6,7 @@ P=$1
 W=/work/$P
 echo "== repo commits to pick"
 git -C /repo fetch -q $W/repo HEAD
-commits=$(git -C /repo rev-list --reverse HEAD..FETCH_HEAD)
+commits=$(git -C /repo rev-list --reverse --no-merges HEAD..FETCH_HEAD)
 for c in $commits; do
   msg=$(git -C /repo log -1 --format=%s $c)
   if git -C /repo log --format=%s | grep -qxF "$msg"; then echo "skip (already present) $msg"; continue; fi
